@@ -4338,6 +4338,9 @@ coap_check_update_token(coap_session_t *session, coap_pdu_t *pdu) {
   }
   if (COAP_PDU_IS_REQUEST(pdu) && session->lg_xmit) {
     LL_FOREACH(session->lg_xmit, lg_xmit) {
+      /* Only a request's state has the (Block1) tokens in it */
+      if (!COAP_PDU_IS_REQUEST(&lg_xmit->pdu))
+        continue;
       if (coap_binary_equal(&pdu->actual_token, lg_xmit->b.b1.app_token))
         return;
       if (token_match == STATE_TOKEN_BASE(lg_xmit->b.b1.state_token)) {
